@@ -304,7 +304,7 @@ def execute(run):
         shards += [{'kind': 'rand', 'name': 'rand-%d' % i, 'n': 12000} for i in range(32)]
         shards += [{'kind': 'boxes', 'name': 'boxes-%d' % i, 'n': 12000} for i in range(16)]
         shards += [{'kind': 'sparse', 'name': 'sparse-%d' % i, 'n': 1500} for i in range(16)]
-        shards += [{'kind': 'long', 'name': 'long-%d' % i, 'n': 1500} for i in range(16)]
+        shards += [{'kind': 'long', 'name': 'long-%d' % i, 'n': 400} for i in range(16)]
         exhaustive_sizes = sizes
     run.extra_cov['exhaustive_scopes'] = ['all grids over {space,-,|,+} of size %dx%d' % s for s in exhaustive_sizes]
     run.extra_cov['exhaustive'] = False
